@@ -20,4 +20,4 @@ def run(ctx):
         "activities in isolation (private host/link/disk per slot): sharing is the business of C15..C21",
         "calibration (first step of the check) verifies that an isolated exec/comm/io lasts exactly the duration asked for",
     ]
-    tc.run_property(ctx, "c12", 200, 5000)
+    tc.run_property(ctx, "c12", 200, 3000)
